@@ -22,6 +22,18 @@ pub fn run_check(prop: &str, thorough: bool, seed: u64) -> Option<Report> {
             rep.absorb(crate::props_treasury::check_c13(if thorough { 2_000_000 } else { 40_000 }, seed));
             Some(rep)
         }
+        "C08" => {
+            let mut rep = Report::new("C08", tier, seed, "reachable state from a generated history of 15-60 ops (with ownership handovers, config changes, refundable packets, submitted and received batches), then up to 18 message variants x 11-13 principals (admin, former admin, nominee, initial admin, monitors, staker/reward hook accounts and their wrong-channel / wrong-sender / wrong-prefix counterparts, the contract itself, a user), each on its own copy of the state; non-trivial = a state in which some message is denied to an unentitled principal while the same message succeeds for the rightful one; distinct by history+matrix hash");
+            rep.assumptions = crate::props::history_assumptions();
+            rep.absorb(crate::props_c08::check_c08(if thorough { 5_000 } else { 300 }, seed));
+            Some(rep)
+        }
+        "C10" => {
+            let mut rep = Report::new("C10", tier, seed, "generated history (0-45 ops incl. breaker/resume by admin, monitors and others), then the breaker is tripped by the admin or a monitor (or a freshly instantiated contract is taken), then 6-14 probes of the six value-moving operations: each probe is constructed and executed on a resumed copy and the identical transaction re-submitted on the halted copy; non-trivial = a probe that succeeds on the resumed copy (so a lost guard would be visible); distinct by history+probe hash. Halting/resuming raw-storage diffs are compared in every history");
+            rep.assumptions = crate::props::history_assumptions();
+            rep.absorb(crate::props_c10::check_c10(if thorough { 20_000 } else { 1_000 }, seed));
+            Some(rep)
+        }
         "C14" => {
             let mut rep = Report::new("C14", tier, seed, "valid configurations from a generator (random prefixes, addresses built by the harness's own bech32 encoder, validator/monitor sets, channels over u64, denoms) with 0-3 field-level corruptions (13 fields x up to 14 corruption kinds: prefix swaps, case changes, truncation/extension, duplicates, checksum damage, bech32m, malformed channels/denoms), instantiated and then updated with every subset of sections and Add/RemoveValidator calls; non-trivial = a message differing from a valid one in exactly one field, or an accepted update of a strict subset of sections, or a validator change; distinct by case hash");
             rep.assumptions = vec![
@@ -52,7 +64,7 @@ pub fn replay(prop: &str, file: &str) -> i32 {
         }
     };
     let case_v = v.get("case").cloned().unwrap_or(v.clone());
-    if let Ok(case) = serde_json::from_value::<Case>(case_v.clone()) {
+    if let (true, Ok(case)) = (case_v.get("setup").is_some(), serde_json::from_value::<Case>(case_v.clone())) {
         let r = run_case(&case, true);
         for l in &r.log {
             println!("{l}");
@@ -77,6 +89,8 @@ pub fn replay(prop: &str, file: &str) -> i32 {
     let res: Option<Result<(), String>> = match prop {
         "C12" => serde_json::from_value::<Vec<crate::props_treasury::OwnStep>>(case_v.clone()).ok().map(|c| crate::props_treasury::check_own_case(&c, &mut scratch)),
         "C13" => serde_json::from_value::<crate::props_treasury::TCase>(case_v.clone()).ok().map(|c| crate::props_treasury::check_tcase(&c, &mut scratch)),
+        "C08" => serde_json::from_value::<crate::props_c08::C08Case>(case_v.clone()).ok().map(|c| crate::props_c08::check_c08_case(&c, &mut scratch)),
+        "C10" => serde_json::from_value::<crate::props_c10::C10Case>(case_v.clone()).ok().map(|c| crate::props_c10::check_c10_case(&c, &mut scratch)),
         "C14" => serde_json::from_value::<crate::props_config::CfgCase>(case_v.clone()).ok().map(|c| crate::props_config::check_cfg_case(&c, &mut scratch)),
         "C04" => serde_json::from_value::<crate::props_pure::RateCase>(case_v.clone()).ok().map(|c| crate::props_pure::check_rate_case(&c).map(|_| ())),
         "C09" => serde_json::from_value::<crate::props_pure::DeriveCase>(case_v.clone()).ok().map(|c| crate::props_pure::check_derive_case(&c).map(|_| ())),
